@@ -286,11 +286,11 @@ REACTIONS2 = [("A + B -> 2 B", "scalar", "scalar"), ("2 B -> A", "scalar", "scal
 STO2 = {0: [-1, 1], 1: [1, -2]}         # net change of species s per reaction (products - substrates)
 
 
-def dspeciesdt_grid_case(nreac, s, apply_chst, shape="full", thorough_only=False):
+def dspeciesdt_grid_case(nreac, s, apply_chst, shape="full", thorough_only=False, prop="C01"):
     """shape: 'x' / 'y' / 'z' = grid extended along that axis only (other sizes 1): all boundary situations
     of that axis; 'interior' = 3-D grid, cell with all six neighbours inside; 'full' = everything at once"""
     cid = "dspeciesdt/grid-%s/R%d/species%d/%s" % (shape, nreac, s, "chemostats" if apply_chst else "no-chemostats")
-    P = "C01/dspeciesdt/grid"
+    P = prop + "/dspeciesdt/grid"
 
     def run(api):
         if api.mode == "conc":
@@ -417,9 +417,9 @@ def dspeciesdt_concrete(api, kind, nreac, s, apply_chst, P, shape="full"):
         api.check(P + "/dim." + kk, d.units.dim[kk] == RATE[kk])
 
 
-def dspeciesdt_graph_case(nreac, s, apply_chst):
+def dspeciesdt_graph_case(nreac, s, apply_chst, prop="C01"):
     cid = "dspeciesdt/graph/R%d/species%d/%s" % (nreac, s, "chemostats" if apply_chst else "no-chemostats")
-    P = "C01/dspeciesdt/graph"
+    P = prop + "/dspeciesdt/graph"
     EDGES = ((0, 1), (2, 1))
 
     def run(api):
@@ -484,9 +484,9 @@ CASES.append(dspeciesdt_grid_case(2, 1, True, "full", thorough_only=True))
 
 # ---------------------------------------------------------------------------
 # ODE right-hand side exported for external integrators
-def dxdtf_case(sub, prod):
+def dxdtf_case(sub, prod, prop="C01"):
     cid = "make_dxdtf/%d%d-%d%d" % (sub + prod)
-    P = "C01/make_dxdtf"
+    P = prop + "/make_dxdtf"
 
     def run(api):
         R = api.mod("rdsystem")
